@@ -85,6 +85,23 @@ CHECKS = {
         "Trusts the rollback model in vlib/tmodel.py; K5 attributed only if "
         "the leak deviation model reproduces text, handler log and call log.",
         "DESIGN.md 3/C13"),
+    "C06": (
+        "exploration",
+        "Hypothesis part-list generation per interpolation context + "
+        "constructed expected output + evaluation log",
+        "Documents made of interpolation sites (element text, both kinds of "
+        "quoted attribute values, comments, <!--? comments, CDATA) under up "
+        "to three nested meta:interpolation switches and both settings of "
+        "comment interpolation; each site mixes literal atoms ($, $$, braces, "
+        "quotes, entities) with ${...} whose expressions are rich in braces, "
+        "quotes and '$'. Because the generator knows the parts, output and "
+        "the ordered log of evaluated expressions are constructed and "
+        "compared exactly; switched-off regions must come out literally with "
+        "nothing evaluated.",
+        "Trusts Python eval of the generator's expression text and the "
+        "per-context escaping model; K1 attributed only via its deviation "
+        "model.",
+        "DESIGN.md 3/C06"),
     "C07": (
         "exploration",
         "Hypothesis generation of attribute merges + reference merge model "
